@@ -83,6 +83,11 @@ def build(seed, pi, subset):
         "tmpl.zot": "# template\n\n## {{ name }}\n\n" + note_lines + joined,
         "zoq/saved.zoq": "# W #t\n#\n" + note_lines,
         "unrelated.txt": "not a zorg file " + " ".join(els) + "\n",
+        # bytes a line-by-line rewrite would normalise: no final newline, two final
+        # newlines, a form feed, a carriage return, a Unicode line separator
+        "endings/nonl.zo": ("# no final newline\n\n" + note_lines + joined).rstrip("\n"),
+        "endings/twonl.zo": "# two final newlines\n\n" + note_lines + "\n",
+        "endings/odd.zot": "# odd separators\n\n" + note_lines.replace(" here\n", " here\x0c\n", 1) + "tail\r\nlast\u2028line\n",
     }
     return A, B, files
 
